@@ -118,21 +118,21 @@ def judge(prop, events, module="EncTrace"):
     for (eid, reason, oi, ctx, mode) in bad:
         rec = byid[eid]
         p, r = attribute(reason, rec)
-        if p == prop:
-            mine.append((rec, r, {"opt": oi, "ctx": ctx, "mode": mode}))
-        else:
+        # a violation of another listed property seen on this check's inputs is reported under that property, never swallowed
+        mine.append((rec, r, {"opt": oi, "ctx": ctx, "mode": mode, "prop": p}))
+        if p != prop:
             others[p + ":" + r] += 1
     return mine, others, judged
 
 
 def triage(prop, failures):
-    known = [e for e in A.load_known() if e["property"] == prop and e.get("status") == "open"]
+    known = [e for e in A.load_known() if e.get("status") == "open"]
     kf, viol = collections.OrderedDict(), []
     for rec, reason, detail in failures:
         feat = features(rec, reason, detail)
         hit = None
         for e in known:
-            if match_entry(e, prop, feat):
+            if e["property"] == detail.get("prop", prop) and match_entry(e, e["property"], feat):
                 hit = e
                 break
         if hit:
@@ -157,7 +157,7 @@ def report(prop, tier, t0, judged, nclasses, failures, kf, confirmed, samples, p
                 ft["known"] = next((e["id"] for e in A.load_known() if match_entry(e, prop, ft)), None)
                 f.write(json.dumps(ft) + "\n")
     for kid, (entry, n, rec) in kf.items():
-        print("KNOWN-FINDING: property=%s %s %s (%d failing events, e.g. `%s`)" % (prop, kid, entry["what"], n, (rec.get("text") or "").strip()))
+        print("KNOWN-FINDING: property=%s %s %s (%d failing events, e.g. `%s`)" % (entry["property"], kid, entry["what"], n, (rec.get("text") or "").strip()))
     seen = collections.Counter()
     for rec, reason, detail in confirmed:
         key = (rec.get("ast", {}).get("mn", rec.get("cls", "")), reason)
@@ -165,9 +165,9 @@ def report(prop, tier, t0, judged, nclasses, failures, kf, confirmed, samples, p
         if seen[key] > 2:
             continue
         path = A.write_replay(prop, "%s-%s" % (rec["id"], reason.replace(":", "_")),
-                              {"property": prop, "reason": reason, "detail": detail, "record": slim(rec), "observed": rec.get("runs")})
+                              {"property": detail.get("prop", prop), "reason": reason, "detail": detail, "record": slim(rec), "observed": rec.get("runs")})
         print("VIOLATION property=%s replay=%s  (%s: `%s` opt=%s ctx=%s mode=%s)" %
-              (prop, path, reason, (rec.get("text") or "").strip(), detail.get("opt"), detail.get("ctx"), detail.get("mode")))
+              (detail.get("prop", prop), path, reason, (rec.get("text") or "").strip(), detail.get("opt"), detail.get("ctx"), detail.get("mode")))
     for key, n in seen.items():
         if n > 2:
             print("  (+%d more violations of kind %s/%s)" % (n - 2, key[0], key[1]))
